@@ -156,7 +156,7 @@ def run_property(pid, tier="quick", seed=0):
             payload = {"property": pid, "obligation": name, "status": "refuted by %s (stage %s)" % (rec["backend"], rec.get("stage")),
                        "path": rec["path"], "model": rec.get("model"), "extra": rec.get("extra"),
                        "path_condition": rec.get("pc"), "vc_smt2": rec.get("smt2"),
-                       "native_replay": confirmed, "native_attempts": tried[:6],
+                       "native_replay": confirmed, "native_attempts": tried[:16],
                        "repo": loader.repo_head(), "outside_known_findings": rec.get("outside_excuses")}
             path = write_replay(pid, name, payload)
             violations.append((path, confirmed is not None, name))
